@@ -536,7 +536,7 @@ func (ck *Checker) disciplineObligations() []*Obligation {
 			}
 		}
 		sort.Strings(bad)
-		out = append(out, effectsObl("discipline/lexer-window-hidden-behind-primitives", []string{"C07", "C20", "C11"}, len(bad) == 0, "lex.go",
+		out = append(out, effectsObl("discipline/lexer-window-hidden-behind-primitives", []string{"C07", "C20", "C11", "C17", "C08"}, len(bad) == 0, "lex.go",
 			"the window representation (input, posShift, inputs, lpUpd) is accessed only by next/current/emit/emitError (and the constructor), the cursor (start, pos, width) only by those and backup/unbackup/ignore; every state function reads the source only through next(), whose contract is independent of chunk boundaries", bad))
 	}
 
